@@ -705,17 +705,6 @@ func judgeError(e errCase, withClient bool) *failure {
 	return nil
 }
 
-func (e errCase) feature() string {
-	switch e.Kind {
-	case "system", "complex", "app":
-		f := e.Kind + "/code=" + codeName(e.Code)
-		return f
-	case "status":
-		return fmt.Sprintf("status/%d", e.Status)
-	}
-	return "plain"
-}
-
 func errorCases() []errCase {
 	var r []errCase
 	for _, cb := range callbacks {
@@ -837,16 +826,22 @@ type valCase struct {
 	Go   string `json:"go_snippet,omitempty"`
 }
 
-// featureOf: the first leaf of the value that fails alone under the same clause, else the shape.
+// featureOf: "any-value" when the simplest value fails the same clause, else the
+// first leaf of the value that fails alone under the same clause, else the shape.
 func featureOf(v val, clause string, a api, cb string, bad bool) string {
-	if v.depth == 0 {
-		return v.name
-	}
 	pool := leaves()
 	judge := judgeSuccess
+	anyName := "any-value"
 	if bad {
 		pool = unmarshalables()
 		judge = judgeBad
+		anyName = "any-unmarshalable-value"
+	}
+	if f := judge(pool[0], a, cb, true); f != nil && f.clause == clause {
+		return anyName
+	}
+	if v.depth == 0 {
+		return v.name
 	}
 	for _, p := range v.parts {
 		for _, l := range pool {
@@ -857,7 +852,7 @@ func featureOf(v val, clause string, a api, cb string, bad bool) string {
 			}
 		}
 	}
-	// not reproducible with a leaf alone: name the parts
+	// not reproducible with a leaf alone: name the shape and its first part
 	ps := append([]string{}, v.parts...)
 	sort.Strings(ps)
 	shape := "depth" + strconv.Itoa(v.depth)
@@ -865,6 +860,43 @@ func featureOf(v val, clause string, a api, cb string, bad bool) string {
 		return shape + "/" + ps[0]
 	}
 	return shape
+}
+
+// errFeature: the error kind, plus the code class only when the code matters
+// (the same kind with code 1 / -1 and the plain message passes).
+func errFeature(e errCase, clause string) string {
+	same := func(x errCase) bool {
+		f := judgeError(x, true)
+		return f != nil && f.clause == clause
+	}
+	switch e.Kind {
+	case "system", "complex", "app":
+		base := e
+		base.Msg = messages[0]
+		base.Code = 1
+		if same(base) {
+			return e.Kind
+		}
+		base.Code = e.Code
+		if !same(base) {
+			return e.Kind + "/message"
+		}
+		if e.Code < 0 {
+			base.Code = -1
+			if same(base) {
+				return e.Kind + "/negative-code"
+			}
+		}
+		return e.Kind + "/code=" + codeName(e.Code)
+	case "status":
+		base := e
+		base.Msg = messages[0]
+		if !same(base) {
+			return "status/message"
+		}
+		return fmt.Sprintf("status/%d", e.Status)
+	}
+	return "plain"
 }
 
 type silent struct{}
@@ -912,7 +944,7 @@ func evalValue(c *hl.Ctx, v val) {
 func evalError(c *hl.Ctx, e errCase) {
 	c.Eval()
 	if f := judgeError(e, true); f != nil {
-		feat := e.feature()
+		feat := errFeature(e, f.clause)
 		if f.clause == "client-error-as-success" && (e.Kind == "plain" || e.Kind == "status") && e.Msg == `{"code":0,"data":null}` {
 			feat = "plain-error-text-is-a-success-envelope"
 		}
